@@ -44,6 +44,23 @@ def check_case(case):
         for x in compare_segs(svg, p, segs) + connectivity(p):
             x["d"] = d
             dis.append(x)
+        if variant is None:
+            # the same data handed to a non-empty path through extend(str) / append(str): parsed on its own, then joined -
+            # the interpretation of the data (closes return to ITS sub-path starts) must be the same
+            for meth in ("extend", "append"):
+                try:
+                    q = svg.Path("M -7,-9 L -8,-9 L -8,-7")
+                    getattr(q, meth)(d)
+                    tail = svg.Path()
+                    tail._segments = list(q)[3:]
+                except Exception as e:
+                    dis.append({"clause": "Raises", "detail": "Path.%s(%r) raised %s: %s" % (meth, d, type(e).__name__, str(e)[:60]), "d": d})
+                    continue
+                for x in compare_segs(svg, tail, segs):
+                    x["clause"] = meth + ":" + x["clause"]
+                    x["detail"] += "  [Path.%s(%r) on a non-empty path]" % (meth, d)
+                    x["d"] = d
+                    dis.append(x)
     return {"dis": dis, "nontrivial": len(hist) >= 2, "class": classify(hist), "strings": tried,
             "checked": ["Count", "Kind", "Start", "End", "Control1", "Control2", "ArcArgs", "Connected", "CloseReturns"]}
 
